@@ -14,7 +14,7 @@ CHECKS = {
          "Full product of section order (6 permutations, root behind a gap) x gap x tree shape (root only, root->leaves, depth 3, mixed) x run length x offset pattern (contiguous, back-references, descending, overlapping) x entry count x metadata kind x 4 compressions (32k archives quick) through from_bytes, from_reader, from_async_reader, util::read_directories(_async) and Directory::find_entry_for_tile_id on every directory; the three upstream fixtures (1.4M tiles) against the spec reader.",
          "trusts the harness's encoder (spec/archive.rs); the fixtures tie encoder and reader to upstream output", "4/C03"),
  "C04": ("model_checking", "explicit-state breadth-first search to fix-point over edit histories of the real PMTiles object (states merged on a canonical key read through the verif hook), BTreeMap reference model checked in every state",
-         "All histories over add/remove/save+reopen(sync|async) on adjacent ids with colliding contents from 14 (quick) / 18 (thorough) initial states incl. three foreign archives and four range-filtered opens: the reachable state space is finite and explored completely (8.5k states / 94k transitions quick; ~330k states thorough), twice in different exploration orders whose state sets must coincide; initial states include range-filtered opens; every transition is executed on the real object twice (with and without interleaved lookups) and lookups by id and by coordinates, listing and count are compared with the map in every state.",
+         "All histories over add/remove/save+reopen(sync|async) on adjacent ids with colliding contents from 14 (quick) / 18 (thorough) initial states incl. three foreign archives and four range-filtered opens: the reachable state space is finite and explored completely (per content alphabet: 8.5k states / 94k transitions quick, ~790k states thorough; alphabets: unrelated contents, and contents related as prefix / suffix / concatenation / trailing zero; quick adds all histories of <= 5 operations over four ids and three related contents), twice in different exploration orders whose state sets must coincide; initial states include range-filtered opens; every transition is executed on the real object twice (with and without interleaved lookups) and lookups by id and by coordinates, listing and count are compared with the map in every state.",
          "state merging argument in DESIGN.md 4/C04; hook is read-only", "4/C04"),
  "C10": ("model_checking", "bounded-exhaustive archive enumeration in three tile provenances judged by the independent reader, plus an invariant on the hook snapshot in every state of the explicit-state history search",
          "Archive clauses on every small map x 4 codecs x {memory, reader-backed, mixed} x {sync,async} (58k archives quick) and on foreign archives storing a content twice: data length = sum of distinct contents, equal content <=> equal offset, no mergeable neighbours, entry count = number of maximal runs. Retention clause (exactly one stored copy per referenced content, exact reference sets, no orphan) as an invariant in every state of the C04 BFS.",
@@ -94,7 +94,7 @@ def main():
         "setup_cmd": "./check --build",
         "hooks": {
             "guard": "cargo feature `verif` of pmtiles2 (off by default)",
-            "enable": "harness/Cargo.toml depends on pmtiles2 = { path = \"/repo\", features = [\"async\", \"verif\"] }",
+            "enable": "harness/Cargo.toml depends on pmtiles2 = { path = \"/repo\", features = [\"async\", \"verif\", \"serde\"] } (verif is the hook; async and serde are the crate's own features)",
             "baseline_off_cmd": "cd /repo && cargo test --workspace --no-fail-fast --offline",
             "source_commits": hook_shas,
             "add_only": True,
@@ -105,7 +105,7 @@ def main():
         ],
         "checks": checks,
         "not_applicable": na,
-        "notes": "All checks rebuild the harness against /repo's working tree first (./check). exit 2 = machinery failure, never a verdict. Known findings: /verif/known_findings.json.",
+        "notes": "All checks rebuild the harness against /repo's working tree first (./check): two binaries, the library under test with and without debug assertions / overflow checks; a check runs in both (the second with quick-tier bounds; C13/C14 there only in the thorough tier) and a violation in either fails it. exit 2 = machinery failure, never a verdict. Known findings: /verif/known_findings.json.",
     }
     json.dump(m, open("/verif/MANIFEST.json", "w"), indent=1)
     print("MANIFEST.json:", len(checks), "checks,", len(na), "not_applicable")
